@@ -291,8 +291,13 @@ pub fn sweep_scalars() -> Outcome {
     // the empty password is a value of its own (only user and dbname treat "" as unset)
     cfg.password = [None, Some("pw9".to_string()), Some(String::new())][choose_free(3)].clone();
     cfg.dbname = pick(&["db9", "dätabase"]);
-    cfg.options = pick(&["-c x=9", ""]);
-    cfg.application_name = pick(&["app9", ""]);
+    let long_opts: String = format!("-c search_path={}", "s\u{e9}".repeat(30));
+    cfg.options = pick(&["-c x=9", "", long_opts.as_str()]);
+    // long values reach tokio_postgres unchanged too (80 bytes of two-byte
+    // characters: no byte offset that a careless truncation would pick is a
+    // character boundary)
+    let long_name: String = "\u{e4}".repeat(40);
+    cfg.application_name = pick(&[long_name.as_str(), "app9", ""]);
     cfg.ssl_mode = [None, Some(SslMode::Disable), Some(SslMode::Prefer), Some(SslMode::Require)][choose_free(4)];
     // durations: whole seconds, below one second, seconds plus a fraction
     // (thorough: also zero and a very large value)
